@@ -1,5 +1,5 @@
 (* C09 - Rollback restores exactly the state n commits ago (abstract machine level). *)
-From Nomt Require Import Base Store Base_proofs Store_proofs.
+From Nomt Require Import Base Store Rollback Base_proofs Store_proofs Rollback_proofs.
 
 Theorem C09_rollback_undoes_commits : forall st h n limit,
   max_len st = Some limit -> n = length h -> 0 < n -> n <= limit ->
@@ -28,3 +28,21 @@ Print Assumptions C09_rollback_fail_noop.
 Theorem C09_log_bounded : forall n h s, length h <= n -> length (push_hist (Some n) h s) <= n.
 Proof. exact Store_proofs.push_hist_bound. Qed.
 Print Assumptions C09_log_bounded.
+
+(* The reverse-delta log of nomt/src/rollback (mirrored in Rollback.v: priors recorded per commit,
+   truncate merging the n newest deltas so that the OLDEST prior wins) refines the snapshot
+   semantics above: applying the traceback to the current state yields exactly the state n
+   commits ago, for every history of batches and every n. *)
+Theorem C09_rollback_refines_snapshots : forall (batches : list (list change)) S0 n,
+  kv_sorted S0 = true -> n <= length batches ->
+  let '(Sfinal, ds) := run_log S0 batches [] in
+  rollback_apply Sfinal ds n = fst (run_log S0 (firstn (length batches - n) batches) []).
+Proof. exact Rollback_proofs.rollback_refines_snapshots. Qed.
+Print Assumptions C09_rollback_refines_snapshots.
+
+Theorem C09_rollback_log_additive : forall (batches : list (list change)) S0 k m,
+  kv_sorted S0 = true -> k + m <= length batches ->
+  let '(Sfinal, ds) := run_log S0 batches [] in
+  rollback_apply (rollback_apply Sfinal ds k) (skipn k ds) m = rollback_apply Sfinal ds (k + m).
+Proof. exact Rollback_proofs.rollback_log_additive. Qed.
+Print Assumptions C09_rollback_log_additive.
